@@ -213,9 +213,11 @@ int disasm_cell(
     n++;
   }
 
+  // An unknown word is still one 32 bit instruction (length 0 made the
+  // range walk stay on it for ever).
   strcpy(instruction, "???");
 
-  return 0;
+  return 4;
 }
 
 void list_output_cell(
